@@ -267,7 +267,6 @@ Mount(needles, err) ==
               LET k == CHOOSE k \in 1..Len(needles) : needles[k][1] = id IN <<needles[k][2], needles[k][3]>>]
   /\ UNCHANGED <<L, S, n, ka, kb, sh, dh, lc>>
 Needle(id, err, off, asize, got) ==
-  /\ ex # <<>>
   /\ (id \in DOMAIN ex /\ 8 * ex[id][1] + ex[id][2] + 64 <= n) =>
         /\ err = "" /\ off = 8 * ex[id][1] /\ asize >= ex[id][2]
         /\ off + asize <= n => SameBytes(got, DatRuns(off, asize))
